@@ -863,7 +863,10 @@ pub fn ref_match(book: &Book, sender: &str, ask_id: &str, bid_id: &str, price: &
     if r.improved && !orig.is_int() {
         r.failed.push("bid-price-quote-not-whole");
     }
-    if !r.failed.is_empty() || r.unclear.is_some() {
+    // a price strictly inside the spread is not a limit price (C03), but what a match at it owes everybody is
+    // still defined by C02's statement: the amounts are computed for it as well
+    let inside_spread = r.failed == vec!["price-is-neither-limit"] && p.cmp(ap) == Some(std::cmp::Ordering::Greater) && p.cmp(bp) == Some(std::cmp::Ordering::Less);
+    if (!r.failed.is_empty() && !inside_spread) || r.unclear.is_some() {
         return r;
     }
     // eligible: amounts
@@ -987,6 +990,10 @@ fn c02_c03_match(tc: &TransCtx, sink: &mut Sink) {
                         format!("ask {:?} bid {:?}", book.asks.get(ask_id), book.bids.get(bid_id)),
                     );
                 }
+                if r.failed == vec!["price-is-neither-limit"] && r.gross > 0 {
+                    // accepted at a price inside the spread: C02 still says what everybody is owed
+                    sink.c("C02/settlement-judged-for-a-price-inside-the-spread");
+                } else {
                 if r.failed == vec!["bid-price-quote-not-whole"] {
                     // C02: the price improvement (bid price - p) * s is fractional, so no payout can be exactly it
                     sink.v(
@@ -996,6 +1003,7 @@ fn c02_c03_match(tc: &TransCtx, sink: &mut Sink) {
                     );
                 }
                 return;
+                }
             }
             // C02: settlement
             let ask = &book.asks[ask_id];
@@ -1522,6 +1530,9 @@ pub fn ref_admit(tc: &TransCtx) -> (Option<bool>, Vec<&'static str>) {
                     Some(t) => {
                         if !t.is_int() {
                             failed.push("total-not-whole");
+                        } else if t.to_u128().map_or(true, |x| x > DECIMAL_MAX) {
+                            // (no verdict: whether an ask whose total is beyond the 96-bit limit is recorded is not part of the statement)
+                            unclear = true;
                         }
                     }
                     None => unclear = true,
@@ -1558,6 +1569,9 @@ pub fn ref_admit(tc: &TransCtx) -> (Option<bool>, Vec<&'static str>) {
             if let Some(p) = price_check(price, &mut failed) {
                 match Rat::int(*size).and_then(|s| p.mul(s)) {
                     Some(t) => match t.to_u128() {
+                        // "Total (price * size) exceeds max allowed": amounts are 96-bit decimals in this contract, and a
+                        // total beyond 2^96 - 1 is refused by design, whatever quote size is stated
+                        Some(t) if t > DECIMAL_MAX => failed.push("total-beyond-the-96-bit-amount-limit"),
                         Some(t) => {
                             if t != *quote_size || t == 0 {
                                 failed.push("quote-size-not-price-times-size");
@@ -1626,6 +1640,9 @@ pub fn ref_admit(tc: &TransCtx) -> (Option<bool>, Vec<&'static str>) {
         (Some(true), failed)
     }
 }
+
+/// 2^96 - 1, the largest amount a 96-bit decimal holds
+const DECIMAL_MAX: u128 = 79_228_162_514_264_337_593_543_950_335;
 
 fn c07_admission(tc: &TransCtx, sink: &mut Sink) {
     let kind = tc.act.req.kind();
@@ -2139,6 +2156,27 @@ fn c17_attributes(tc: &TransCtx, a: &Accepted, post: &Book, sink: &mut Sink) {
                     (Some(x), Some(y)) if x == y => {}
                     (_, None) => {}
                     (x, _) => sink.v("C17", format!("C17/{kind}/price-attribute"), format!("{:?} ({x:?}) vs executed at {price}", attr(a, "price"))),
+                }
+                // "the reported size and execution price equal what was actually executed": the selling side was paid,
+                // before the ask fee, exactly reported price x reported size (judged on the ledger, whatever the reference
+                // model thinks of the request; only when the selling account plays no other part in the match)
+                {
+                    let seller: &str = match &pa.class {
+                        AskClass::Ready { approver, .. } => approver,
+                        _ => &pa.owner,
+                    };
+                    let fee_accts: Vec<&str> = book.info.iter().flat_map(|i| i.ask_fee_info.iter().chain(i.bid_fee_info.iter())).map(|f| f.account.as_str()).collect();
+                    if seller != pb.owner && seller != CONTRACT && !fee_accts.contains(&seller) && (seller == pa.owner || pa.owner != pb.owner) {
+                        if let (Some(px), Some(sz), Some(fee)) = (attr(a, "price").and_then(parse_dec), num_attr("size"), num_attr("ask_fee").or(Some(0))) {
+                            let got: u128 = a.flows.iter().filter(|f| f.from == CONTRACT && f.to == seller && f.denom == pb.quote_denom).map(|f| f.amount).sum();
+                            sink.c("C17/execute/paid-amount-compared-with-reported-price-and-size");
+                            let want = Rat::int(sz).and_then(|s| px.mul(s));
+                            let paid = Rat::int(got + fee);
+                            if want.is_some() && paid.is_some() && want != paid {
+                                sink.v("C17", format!("C17/{kind}/reported-price-times-size-is-not-what-the-seller-was-paid"), format!("price {:?} x size {sz} reported; seller {seller} received {got} + ask fee {fee}", attr(a, "price")));
+                            }
+                        }
+                    }
                 }
                 // fees that reached the fee accounts
                 let info = book.info.as_ref();
